@@ -330,6 +330,8 @@ func init() {
 			{Name: "reuse", TShards: 4, Run: func(c *Ctx) { alignReuse(c, alignOpts{validity: true}, 0) }},
 			{Name: "readers", Race: true, QShards: 2, TShards: 4, Run: c08Readers},
 			{Name: "large", QShards: 4, TShards: 8, Run: func(c *Ctx) { alignLarge(c, alignOpts{validity: true}, c08Gen) }},
+			{Name: "thin", QShards: 3, TShards: 5, Run: func(c *Ctx) { alignThin(c, alignOpts{validity: true}, -2) }},
+			{Name: "srcviews", Run: srcViewUnit(alignViewCalls(-2))},
 			{Name: "parallel", Race: true, Run: alignParallel},
 			firstCallUnit(firstAlign("C08")),
 			firstParallelUnit(parAlign),
@@ -358,6 +360,8 @@ func init() {
 			{Name: "tables", Run: c09Tables},
 			{Name: "reuse", TShards: 4, Run: func(c *Ctx) { alignReuse(c, alignOpts{validity: true, optimal: true}, 1) }},
 			{Name: "large", QShards: 4, TShards: 8, Run: func(c *Ctx) { alignLarge(c, alignOpts{validity: true, optimal: true}, c09Gen) }},
+			{Name: "thin", QShards: 3, TShards: 5, Run: func(c *Ctx) { alignThin(c, alignOpts{validity: true, optimal: true}, 0) }},
+			{Name: "srcviews", Run: srcViewUnit(alignViewCalls(0))},
 			{Name: "lengthpairs", QShards: 4, TShards: 8, Run: func(c *Ctx) { alignLengthPairs(c, alignOpts{validity: true, optimal: true, local: true}, c09Gen) }},
 			{Name: "easy", TShards: 4, Run: func(c *Ctx) { alignEasy(c, alignOpts{validity: true, optimal: true, local: true}, 1) }},
 			{Name: "largecalls", QShards: 6, TShards: 8, StallSec: 120, Run: func(c *Ctx) { alignLargeCalls(c, alignOpts{validity: true, optimal: true, local: true}, c09Gen) }},
@@ -383,6 +387,8 @@ func init() {
 			{Name: "witnesses", Run: c10Witnesses},
 			{Name: "reuse", TShards: 4, Run: func(c *Ctx) { alignReuse(c, alignOpts{validity: true, optimal: true, knownC10: true}, 2) }},
 			{Name: "large", QShards: 4, TShards: 8, Run: func(c *Ctx) { alignLarge(c, alignOpts{validity: true, optimal: true, knownC10: true}, c10Gen) }},
+			{Name: "thin", QShards: 3, TShards: 5, Run: func(c *Ctx) { alignThin(c, alignOpts{validity: true, optimal: true, knownC10: true}, -3) }},
+			{Name: "srcviews", Run: srcViewUnit(alignViewCalls(-3))},
 			{Name: "lengthpairs", QShards: 4, TShards: 8, Run: func(c *Ctx) {
 				alignLengthPairs(c, alignOpts{validity: true, optimal: true, knownC10: true, local: true}, c10Gen)
 			}},
@@ -1486,6 +1492,41 @@ func alignManyCalls(c *Ctx, o alignOpts, gen func(r *rand.Rand, mi int, alpha []
 			k.Count("long_call_histories", 1)
 			k.Count("calls_in_long_histories", int64(calls))
 			k.Nontrivial([]byte(fmt.Sprint("manycalls", period)))
+		})
+	}
+}
+
+// alignThin: one sequence of one to three symbols against one of MILLIONS — a
+// primer, an adapter, a codon against a chromosome arm — with integer scores
+// of ordinary size for substitutions and a gap score in the hundreds or a
+// thousand. Every single score fits any narrow number type; the total (a few
+// million gaps) passes 2^31, and a row of the table is longer than 2^22 cells,
+// more than any per-row bookkeeping sized for ordinary tables expects.
+func alignThin(c *Ctx, o alignOpts, open float64) {
+	shapes := [][2]int{{1, 1<<22 + 5}, {3, 1<<21 + 1<<17}, {1<<22 + 5, 1}}
+	if c.Thorough {
+		shapes = append(shapes, [2]int{2, 1<<23 + 1}, [2]int{1<<21 + 1<<17, 3})
+	}
+	for i, sh := range shapes {
+		c.Case(int64(i), func(k *K) {
+			r := k.Rand()
+			alpha := []byte("ACGT")
+			m := dnaMatrix(alpha, 5, -4, pick(r, []float64{-1000, -1000, -1024, -997}), open)
+			long := bytes.Repeat([]byte("AC"), max(sh[0], sh[1])/2+1)[:max(sh[0], sh[1])]
+			short := []byte("ACA")[:min(sh[0], sh[1])]
+			a, b := short, long
+			if sh[0] > sh[1] {
+				a, b = long, short
+			}
+			k.Input("len_a", len(a))
+			k.Input("len_b", len(b))
+			k.Input("matrix", matrixDesc(m))
+			oo := o
+			oo.local = true
+			alignCase(k, a, b, m, oo)
+			k.Count("thin_tables", 1)
+			k.Count("large_table_cases", 1)
+			k.Nontrivial([]byte(fmt.Sprint("thin", sh)), []byte(matrixString(m)))
 		})
 	}
 }
